@@ -79,6 +79,79 @@ func genFields(r *Repo, l *Lean) {
 		}
 		l.StrList(name, "calls made by the unconditional statements of `"+w.fn+"` ("+dirName(w.dir)+"); `$` = a parameter, receiver or local variable", topCalls(fd))
 	}
+	genPoolSites(r, l)
+}
+
+// genPoolSites: every syntactic `<pool>.Put(...)` / `<pool>.Get()` on one of the four object pools,
+// anywhere in its package (function bodies, deferred calls, closures), with the enclosing function
+// declaration. The discipline theorem names the put/get functions it has looked at; this fact says
+// that there is no OTHER way an object enters or leaves a pool (e.g. a deferred Put on an error path
+// that skips the reset).
+func genPoolSites(r *Repo, l *Lean) {
+	var rows []string
+	for _, w := range []struct{ dir, pool string }{{"socket", "messagePool"}, {"utils", "argsPool"}, {"", "ctxPool"}, {"socket", "socketPool"}} {
+		p := r.Pkg(w.dir)
+		if p.Err != nil || len(p.Files) == 0 {
+			l.Missing("pool_sites", "package dir '"+w.dir+"' does not parse")
+			return
+		}
+		found := false
+		for _, f := range p.Files {
+			for _, d := range f.Decls {
+				fd, ok := d.(*ast.FuncDecl)
+				if !ok || fd.Body == nil {
+					continue
+				}
+				fn := fd.Name.Name
+				if rt := recvTypeName(fd); rt != "" {
+					fn = rt + "." + fn
+				}
+				ast.Inspect(fd.Body, func(n ast.Node) bool {
+					c, ok := n.(*ast.CallExpr)
+					if !ok {
+						return true
+					}
+					sel, ok := c.Fun.(*ast.SelectorExpr)
+					if !ok {
+						return true
+					}
+					id, ok := sel.X.(*ast.Ident)
+					if !ok || id.Name != w.pool {
+						return true
+					}
+					found = true
+					rows = append(rows, w.pool+"."+sel.Sel.Name+"@"+fn)
+					return true
+				})
+			}
+			// any other mention of the pool variable (passed around, aliased) defeats the site list
+			for _, d := range f.Decls {
+				fd, ok := d.(*ast.FuncDecl)
+				if !ok || fd.Body == nil {
+					continue
+				}
+				ast.Inspect(fd.Body, func(n ast.Node) bool {
+					switch x := n.(type) {
+					case *ast.SelectorExpr:
+						if id, ok := x.X.(*ast.Ident); ok && id.Name == w.pool {
+							return false // the pool as receiver of a selector: counted above
+						}
+					case *ast.Ident:
+						if x.Name == w.pool {
+							rows = append(rows, w.pool+".escapes@"+fd.Name.Name)
+						}
+					}
+					return true
+				})
+			}
+		}
+		if !found {
+			l.Missing("pool_sites", "no use of "+w.pool+" found in package dir '"+w.dir+"'")
+			return
+		}
+	}
+	sort.Strings(rows)
+	l.StrList("pool_sites", "every `<pool>.Get/Put` call on messagePool, argsPool, ctxPool, socketPool with its enclosing function declaration (`pool.Method@func`; `escapes` = the pool variable is used other than as the receiver of a call); sorted", rows)
 }
 
 func dirName(d string) string {
